@@ -296,7 +296,10 @@ fn de_with_limit(v: &OvVal, xml: &str, limit: Option<usize>, via_reader: bool, p
         for p in presets {
             de.event_buffer_size(std::num::NonZeroUsize::new(*p as usize));
         }
-        de.event_buffer_size(limit.and_then(std::num::NonZeroUsize::new));
+        // "no limit" with no earlier setting = the method is never called (the default must be "none")
+        if limit.is_some() || !presets.is_empty() {
+            de.event_buffer_size(limit.and_then(std::num::NonZeroUsize::new));
+        }
         return match v {
             OvVal::Ov(_) => Ov::deserialize(&mut de).map(OvVal::Ov),
             OvVal::Ov2(_) => Ov2::deserialize(&mut de).map(OvVal::Ov2),
@@ -308,7 +311,9 @@ fn de_with_limit(v: &OvVal, xml: &str, limit: Option<usize>, via_reader: bool, p
     for p in presets {
         de.event_buffer_size(std::num::NonZeroUsize::new(*p as usize));
     }
-    de.event_buffer_size(limit.and_then(std::num::NonZeroUsize::new));
+    if limit.is_some() || !presets.is_empty() {
+        de.event_buffer_size(limit.and_then(std::num::NonZeroUsize::new));
+    }
     match v {
         OvVal::Ov(_) => Ov::deserialize(&mut de).map(OvVal::Ov),
         OvVal::Ov2(_) => Ov2::deserialize(&mut de).map(OvVal::Ov2),
@@ -436,6 +441,19 @@ fn all_orders(units: &[Unit]) -> Vec<Vec<u16>> {
     out
 }
 
+/// choice stream that makes `interleave` pick the groups in the given sequence
+fn choices_for(wanted: &[usize], sizes: &[usize]) -> Vec<u16> {
+    let mut left = sizes.to_vec();
+    let mut out = vec![];
+    for g in wanted {
+        let live: Vec<usize> = (0..left.len()).filter(|k| left[*k] > 0).collect();
+        let pos = live.iter().position(|k| k == g).expect("group exhausted");
+        out.push(((pos * 65536 + 32768) / live.len()) as u16);
+        left[*g] -= 1;
+    }
+    out
+}
+
 fn run(ctx: &Ctx) {
     ctx.run_regress::<Case, _>(check);
     // all interleavings x all limits for small values
@@ -489,9 +507,12 @@ fn run(ctx: &Ctx) {
             let n = [350usize, 400, 700, 1500][(i % 4) as usize];
             let b: Vec<String> = (0..n).map(|k| format!("x{}", (k as u64 * 7 + i) % 10)).collect();
             let a = vec![OvItem { id: 1, a: vec![1], z: vec![] }, OvItem { id: 2, a: vec![], z: vec!["z".into()] }];
-            // order: first item of `a`, all of `b`, then the second item of `a` (choice stream: group picks)
-            let mut order = vec![0u16; 1];
-            order.extend(std::iter::repeat(40000u16).take(n));
+            // order: first item of `a`, all of `b`, then the second item of `a`, then the rest
+            // (groups in document order: a, b, c, s)
+            let mut wanted = vec![0usize];
+            wanted.extend(std::iter::repeat(1usize).take(n));
+            wanted.extend([0usize, 2, 3]);
+            let order = choices_for(&wanted, &[2, n, 1, 1]);
             Some(Case { value: OvVal::Ov(Ov { n: 0, a, b, c: vec![(i % 250) as u8], s: "s".into() }), order, nested_order: vec![], limits: vec![65535, 65000], via_reader: i % 3 == 1, presets: vec![] })
         },
         check,
